@@ -190,6 +190,63 @@ def case_table(run, i):
                  sample={"chromosome": cols["chromosome"][:3], "start": cols["start"][:3], "log2": cols["log2"][:3], "weight": cols["weight"][:3], "configs": fps} if i % 97 == 0 else None)
 
 
+# ---- one table object segmented, changed in place by the library's own methods, and segmented again
+
+def _n_seq(tier):
+    return 96 if tier == "quick" else 1200
+
+
+def case_sequence(run, i):
+    """Every call is judged on the table as it is at that moment, so anything
+    remembered from the earlier call (arm boundaries, filters, caches on the
+    object) shows as a wrong tiling or wrong aggregates."""
+    import cnvlib.segmentation as S
+    rng = run.rng("sequence", i)
+    maxbins = 160 if run.tier == "quick" else 400
+    cols, info = gen_table(rng, maxbins)
+    n = len(cols["start"])
+    first = rng.random(n) < 0.6
+    if first.all() or not first.any():
+        first[:] = True
+        first[n // 2:] = n < 2
+    part = lambda m: {k: [v for v, keep in zip(vals, m) if keep] for k, vals in cols.items()}
+    cna = make_cna(part(first), meta={"sample_id": "S"})
+    rest = make_cna(part(~first), meta={"sample_id": "S"}) if (~first).any() else None
+    methods = ["none", "haar"] if i % 3 else ["haar", "none"]
+    run.begin_case("sequence", i, cls="sequence:" + ("arm-split" if info["split"] else "no-split"))
+    step = 0
+
+    def seg(method):
+        cfg = _config(rng, i + step)
+        run.case["method"], run.case["config"] = method, cfg
+        try:
+            S.do_segmentation(cna, method, skip_low=cfg["skip_low"], skip_outliers=cfg["skip_outliers"], min_weight=cfg["min_weight"], processes=cfg["processes"])
+        except Exception:
+            pass
+
+    seg(methods[0]); step += 1
+    if rest is not None:
+        with run.monitor_scope():
+            cna.add(rest)                       # in place: the held-back bins join the table (as antitargets join targets)
+        run.extra["sequence:grown-in-place"] += 1
+    seg(methods[1]); step += 1
+    with run.monitor_scope():
+        keep = rng.random(len(cna)) < 0.7
+        if keep.any():
+            cna.data = cna.data[keep].reset_index(drop=bool(i % 2))     # shrunk in place (with and without fresh row labels)
+            run.extra["sequence:shrunk-in-place"] += 1
+    seg(methods[0]); step += 1
+    with run.monitor_scope():
+        try:
+            cna.center_all()
+            cna[cna.chromosome == cna.chromosome.iloc[0], "log2"] += 0.5
+            run.extra["sequence:values-changed-in-place"] += 1
+        except Exception:
+            pass
+    seg(methods[1])
+    run.end_case(fp=rt.fingerprint([cols["start"][:40], cols["log2"][:40], first.tolist()[:40]], 12), nontrivial=n > 3)
+
+
 # ---- the command-line path: .cnr file -> cnvkit.py segment -> .cns file
 
 def _n_cli(tier):
@@ -278,7 +335,7 @@ def case_degenerate(run, i):
     run.end_case(fp=rt.fingerprint([nb, nchr, const, method], 12), nontrivial=False)
 
 
-WORKLOADS = {"table": (_n, case_table), "cli": (_n_cli, case_cli), "degenerate": (_n_deg, case_degenerate)}
+WORKLOADS = {"table": (_n, case_table), "sequence": (_n_seq, case_sequence), "cli": (_n_cli, case_cli), "degenerate": (_n_deg, case_degenerate)}
 _Q = {
     "segmentation._do_segmentation[arm]|held": 400,
     "segmentation.do_segmentation|held": 250,
@@ -288,6 +345,7 @@ _Q = {
     "class:arm:hmm-germline:edge-filtered": 3,
     "class:arm:hmm-tumor:edge-filtered": 3,
     "extra:calls-with-arm-split": 20,
+    "extra:sequence:grown-in-place": 40,
     "extra:calls-completing-out-of-submission-order": 5,
     "extra:calls-spread-over-several-worker-processes": 20,
     "cli.segment[file]|held": 8, "cli.segment[plumbing]|held": 10,
